@@ -155,7 +155,7 @@ CLAIMS = {
             "order of polygons/polyhedra, and the choice of the stored support point of a Line / Plane -- decided in a "
             "degree/parity domain and by polynomial normal forms of the hashed value; __eq__/__hash__ store nothing on the "
             "(mutable) object, so a remembered hash cannot go stale after move / coordinate assignment / tolerance change; "
-            "Segment.__eq__ accepts both pairings; __eq__ uses direction fields only under parallel()/normalized(). NOT decided: that different sets "
+            "Segment.__eq__ accepts both pairings; __eq__ uses direction fields only under parallel()/normalized() (also through helpers it delegates to). The parity domain joins over all definitions of a local; a conditional negation counts as a canonical orientation only if its guard orients all three components. NOT decided: that different sets "
             "compare unequal, rounding-boundary effects, int/Fraction mixing."
         ),
         note=NOTE_COMMON + "hash(), round() and normalized() are modelled as functional opaque atoms of their canonical arguments.",
@@ -183,6 +183,7 @@ CLAIMS = {
             "[0, pi/2] by an interval domain (acute() folds exactly at pi/2); the vector predicate is swapped and the angle "
             "complemented iff the two direction kinds (tangent/normal) differ; every acos argument is clamped to [-1, 1] so "
             "that parallel, anti-parallel and perpendicular operands cannot raise; the method forms forward (self, other). "
+            "A predicate decided by comparing an inverse-cosine angle with the tolerance is reported (acos(1 - 2**-53) is about 1.5e-8). "
             "NOT decided: that parallel/orthogonal are True exactly at angle 0 / pi/2 (tolerance numerics)."
         ),
         note=NOTE_COMMON,
@@ -232,7 +233,7 @@ CLAIMS = {
             "a.(a x b)=0, a x b=-(b x a), Lagrange are re-derived); these operations contain no coercion, division or "
             "float literal; the promotion ranks are user < Fraction < Decimal < float < int with the minimum selected and "
             "applied to every item; both constructors store promoted coordinates on every path; zero() and the unit vectors "
-            "build a fresh Vector on every call (not memoised, no shared state); acos is clamped. NOT decided: |normalized(v)| = 1 and direction preservation over magnitudes, Decimal behaviour (numeric)."
+            "build a fresh Vector on every call (not memoised, no shared state); acos is clamped; length / normalized / unit / angle contain no comparison of a positive-degree quantity of the vector with an absolute threshold (homogeneity-degree domain), so no part of the claimed range of magnitudes is treated as degenerate. NOT decided: the numeric value of |normalized(v)| and of the angle, Decimal behaviour."
         ),
         note=NOTE_COMMON + "A rewrite outside the handled fragment (numpy, explicit loops) fails closed with exit 2.",
     ),
@@ -244,7 +245,7 @@ CLAIMS = {
             "utils/constant.py reads the import-time names FLOAT_EPS/SIG_FIGURES (resolved through explicit and star "
             "imports), getter results are never cached beyond one function activation (module/class level, default "
             "arguments, attributes, globals), every rounding precision derives from get_sig_figures(), no comparison "
-            "uses a private float literal below 1e-3, and both setters declare and assign both globals on every path "
+            "uses a private float literal below 1e-3 or an approximate-comparison helper (math.isclose / allclose) whose built-in relative tolerance is left on, and both setters declare and assign both globals on every path "
             "with the stated relation at the defaults and at one further setting (constant folding of the setters' own "
             "expressions; whole package incl. visualization). NOT decided: the numeric clauses (eps/1000 compares and "
             "hashes equal, 4*eps compares unequal)."
